@@ -22,8 +22,8 @@ PROFILE = {'n_rps': 2, 'setup_ops': 18, 'existing_consumer_bias': 0.7, 'empty_bi
 def run(chk):
     if not getattr(chk, 'no_lean', False):
         chk.lean_stage(META['lean_module'], exe=True)
-    n = 112 if chk.tier == 'quick' else 3000
-    conc.run_races(chk, ['C06'], n, 120 if chk.tier == 'quick' else 3000, PROFILE)
+    n = 112 if chk.tier == 'quick' else 800
+    conc.run_races(chk, ['C06'], n, 120 if chk.tier == 'quick' else 600, PROFILE)
     chk.cov['rule'] = ('start states built through the API; 2 (5%: 3) PUT/POST allocations or reshaper requests touching a common consumer, '
                        'new or existing, generations null/current/stale, at microversions >= 1.28 mostly; every canonical interleaving of '
                        'their transactions on the real application and in the Lean model; distinct = kinds of races')
